@@ -25,3 +25,51 @@ Proof. vm_compute. reflexivity. Qed.
 (* without fallback the same text is disconnected *)
 Example ex_no_fallback : build ex_conn (fun p => match p with 0%nat => [mkNode 0 2 1 1 5] | _ => [] end) (fun _ => None) 5 = None.
 Proof. vm_compute. reflexivity. Qed.
+
+(* ---- Model/LatticeP.v: a well-formed analysis runs through; ill-formed input panics where the real Lattice does
+        (the same sessions are replayed on the implementation by the correspondence run) ---- *)
+From SudachiVerif Require Import Model.LatticeP.
+Example lattice_wf_round_ok :
+  round_wf 1 1 [3%Z] (3%nat, [mkNode 0 2 0 0 5; mkNode 0 1 0 0 1; mkNode 1 3 0 0 1; mkNode 2 3 0 0 1]) = true
+  /\ match prounds true true 1 1 [3%Z] pdefault [(3%nat, [mkNode 0 2 0 0 5; mkNode 0 1 0 0 1; mkNode 1 3 0 0 1; mkNode 2 3 0 0 1])] with
+     | POk (_, [(costs, Some (c, path, totals))]) => costs = [8; 4; 8; 12]%Z /\ c = 11%Z /\ path = [(1, 0); (3, 0)]%nat /\ totals = [4; 8]%Z
+     | _ => False
+     end.
+Proof. vm_compute. repeat split; reflexivity. Qed.
+(* a node ending beyond the outer vectors: `self.ends[end_idx]` *)
+Example lattice_end_beyond_panics :
+  prounds true true 1 1 [3%Z] pdefault [(2%nat, [mkNode 0 3 0 0 1])] = PPanic S_insert_ends_end.
+Proof. vm_compute. reflexivity. Qed.
+(* ... but not when an earlier, longer analysis left a stale row there: no panic, the node lands in a row nobody reads *)
+Example lattice_stale_row_no_panic :
+  match prounds true true 1 1 [3%Z] pdefault [(5%nat, [mkNode 0 5 0 0 1]); (2%nat, [mkNode 0 4 0 0 1; mkNode 0 2 0 0 1])] with
+  | POk _ => True | _ => False end.
+Proof. vm_compute. exact I. Qed.
+(* ids outside the matrix: debug assertion with debug assertions, undefined behaviour without *)
+Example lattice_bad_id_panics :
+  prounds true true 1 1 [3%Z] pdefault [(1%nat, [mkNode 0 1 1 0 1])] = PPanic S_conn_right
+  /\ prounds false false 1 1 [3%Z] pdefault [(1%nat, [mkNode 0 1 1 0 1])] = PUB.
+Proof. vm_compute. split; reflexivity. Qed.
+(* the empty text through the public Lattice API: reset(0), connect_eos, fill_top_path indexes indices[0][0], which BOS
+   never fills.  StatefulTokenizer::do_tokenize returns before build_lattice for an empty text, hence `1 <= len` in round_wf *)
+Example empty_text_api_panics :
+  prounds true true 1 1 [3%Z] pdefault [(0%nat, [])] = PPanic S_path_indices_col.
+Proof. vm_compute. reflexivity. Qed.
+
+(* ---- resolve_best_path / accessors: "aあb" = 61 E3 81 82 62; the node of あ resolves to characters [1,2), bytes [1,4);
+        a node ending behind the text indexes mod_c2b out of range (None = panic) ---- *)
+From SudachiVerif Require Import Model.Buffer Proofs.AccessorsNoPanic.
+Example resolve_node_example :
+  resolve_node [97; 227; 129; 130; 98]%N (mkNode 1 2 0 0 0) = Some (mkRN 1 2 1 4, [227; 129; 130]%N)
+  /\ resolve_node [97; 227; 129; 130; 98]%N (mkNode 2 4 0 0 0) = None.
+Proof. vm_compute. split; reflexivity. Qed.
+Example accessors_example :
+  match start_build the_cfg [97; 227; 129; 130; 98]%N with
+  | Buffer.Ok s => morpheme_begin s (mkRN 1 2 1 4) = Some 1%nat /\ morpheme_end s (mkRN 1 2 1 4) = Some 4%nat
+                   /\ morpheme_begin_c the_cfg s (mkRN 1 2 1 4) = Some 1%nat /\ morpheme_end_c the_cfg s (mkRN 1 2 1 4) = Some 2%nat
+                   /\ morpheme_surface s (mkRN 1 2 1 4) = Some [227; 129; 130]%N
+                   (* a node whose byte range is off a character boundary: the debug assertion of orig_slice *)
+                   /\ morpheme_surface s (mkRN 1 2 2 4) = None
+  | _ => False
+  end.
+Proof. vm_compute. repeat split; reflexivity. Qed.
